@@ -129,7 +129,7 @@ def run(chk):
     for name, model, quads in MODELS:
         for N in ([0, 1, 2] if quick else [0, 1, 2, 3, 4]):
             lo, hi = -2 * N - 2, 2 * N + 2
-            inp = "model\n" + model + "end\n" + "".join("vertex %d %d %d %d %d %d %d 11\n" % (q + (N, lo, hi)) for q in quads)
+            inp = "model\n" + model + "end\n" + "".join("vertex %d %d %d %d %d %d %d 11 %d\n" % (q + (N, lo, hi, (qi + N) % 2)) for qi, q in enumerate(quads))
             rc, out, err = pv.run_harness(h, inp, timeout=900)
             if rc != 0:
                 chk.violation("h_c15 vertex crashed model=%s N=%d" % (name, N), "harness exit %d: %s" % (rc, err[-300:]),
